@@ -373,7 +373,7 @@ def make_cases(chk, n):
     return cases
 
 
-def evaluate(chk, cases, stats, gf_budget, sample_rate=0.03):
+def evaluate(chk, cases, stats, gf_budget, sample_rate=0.04):
     """correspondence + property on a batch of cases; returns number of failing inputs reported"""
     cases = [run_real(c) for c in cases]
     live = [c for c in cases if c.skip is None]
@@ -387,6 +387,7 @@ def evaluate(chk, cases, stats, gf_budget, sample_rate=0.03):
             owners.append(c)
     outs = minif.model_exec(jobs) if jobs else []
     exec_res = {id(c): (outs[2 * k], outs[2 * k + 1]) for k, c in enumerate(owners)}
+    todo = []
     for c, mo in zip(live, model):
         m = parse_sx(mo) if mo.startswith("(") else mo
         m_acc = isinstance(m, list) and m[0] == "ok"
@@ -413,18 +414,32 @@ def evaluate(chk, cases, stats, gf_budget, sample_rate=0.03):
             continue
         # ---- the property itself on the real code's result
         o, n = exec_res[id(c)]
-        differs = (o != n)
-        sampled = chk.rng.random() < sample_rate
-        if not differs and not sampled:
-            continue
         if minif.overflowed(o) or minif.overflowed(n):
             stats["overflow_skipped"] += 1
             continue
-        if gf_budget[0] <= 0:
-            stats["gfortran_budget_exhausted"] += 1
+        labels = c.prog.labels()
+        mdiff = [labels[k] for k in range(min(len(o), len(n), len(labels))) if o[k] != n[k]]
+        cls = classify(c, mdiff) if (agreed and mdiff) else None
+        if mdiff:
+            stats["model_level_differences"] += 1
+        if mdiff and cls is not None and cls in stats["known_ids"] and chk.rng.random() >= 0.1:
+            # model and code agree on this case and it lies in the class of a listed finding (whose
+            # committed witness is confirmed with gfortran below): not confirmed individually
+            stats["known_class_hits"][cls] = stats["known_class_hits"].get(cls, 0) + 1
             continue
-        gf_budget[0] -= 1
-        res, err = gfortran_outputs(c)
+        if not mdiff and chk.rng.random() >= sample_rate:
+            continue
+        todo.append((c, o, n, agreed))
+    # ---- gfortran confirmation (unclassified differences first, then the validation sample)
+    todo.sort(key=lambda t: t[1] == t[2])
+    if len(todo) > gf_budget[0]:
+        stats["gfortran_budget_exhausted"] += len(todo) - gf_budget[0]
+        todo = todo[:gf_budget[0]]
+    gf_budget[0] -= len(todo)
+    from concurrent.futures import ThreadPoolExecutor
+    with ThreadPoolExecutor(max_workers=6) as ex:
+        results = list(ex.map(lambda t: gfortran_outputs(t[0]), todo))
+    for (c, o, n, agreed), (res, err) in zip(todo, results):
         stats["gfortran_runs"] += 1
         if res is None:
             if err[0] == "compile-error" or err[1] == "compile-error":
@@ -435,8 +450,8 @@ def evaluate(chk, cases, stats, gf_budget, sample_rate=0.03):
         if g0 != o or g1 != n:
             stats["oracle_disagreements"] += 1      # MiniF/exporter vs gfortran (e.g. out-of-bounds access)
             stats.setdefault("oracle_disagreement_sample", c.payload())
-            if g0 == g1:
-                continue
+        else:
+            stats["oracle_agreements"] += 1
         if g0 == g1:
             continue
         labels = c.prog.labels()
@@ -457,16 +472,18 @@ def evaluate(chk, cases, stats, gf_budget, sample_rate=0.03):
     return stats["failing"]
 
 
-def replay_case(payload):
-    """re-run one stored input against the real code; returns (failing, text)"""
+def prepare_replay(payload):
     c = Case(payload["kind"], None, payload["target"], payload.get("options"),
              payload.get("literal_negative_step", False), src=payload["src"])
-    run_real(c)
+    return run_real(c)          # fparser is not thread-safe: always sequential
+
+
+def judge_replay(c, gf):
     if c.skip:
         return False, "skipped: " + c.skip
     if not c.accepted:
         return False, "refused: " + c.error[:200]
-    res, err = gfortran_outputs(c)
+    res, err = gf
     if res is None:
         return False, f"gfortran: {err}"
     g0, g1 = res
@@ -474,6 +491,12 @@ def replay_case(payload):
     if diff:
         return True, f"accepted; outputs differ at {len(diff)} positions, first (index, original, transformed): {diff[:4]}"
     return False, "accepted; outputs equal"
+
+
+def replay_case(payload):
+    """re-run one stored input against the real code; returns (failing, text)"""
+    c = prepare_replay(payload)
+    return judge_replay(c, gfortran_outputs(c) if (c.skip is None and c.accepted) else (None, None))
 
 
 def run(chk):
@@ -496,10 +519,11 @@ def run(chk):
     known = common.known_findings("C05")
     stats = {"kinds": {}, "outcomes": {}, "skipped": 0, "overflow_skipped": 0, "gfortran_runs": 0,
              "gfortran_trap_skipped": 0, "gfortran_budget_exhausted": 0, "oracle_disagreements": 0,
+             "oracle_agreements": 0, "model_level_differences": 0,
              "failing": 0, "known_class_hits": {}, "known_ids": [e["id"] for e in known]}
     thorough = chk.tier == "thorough"
-    n = 900 if thorough else 130
-    gf_budget = [600 if thorough else 70]
+    n = 900 if thorough else 100
+    gf_budget = [400 if thorough else 24]
     # corpus of past failures first
     cdir = os.path.join(common.ROOT, "corpus", "C05")
     corpus = []
@@ -518,8 +542,12 @@ def run(chk):
         evaluate(chk, make_cases(chk, 3 * n), stats, gf_budget, sample_rate=0.0)
         stats["intensive_search"] = True
     # known findings: replay the committed witnesses
-    for e in known:
-        failing, text = replay_case(e["witness"])
+    from concurrent.futures import ThreadPoolExecutor
+    prepared = [prepare_replay(e["witness"]) for e in known]
+    with ThreadPoolExecutor(max_workers=6) as ex:
+        gfs = list(ex.map(lambda c: gfortran_outputs(c) if (c.skip is None and c.accepted) else (None, None), prepared))
+    for e, c, gf in zip(known, prepared, gfs):
+        failing, text = judge_replay(c, gf)
         if failing:
             chk.known(e["what"])
     stats.pop("known_ids")
